@@ -163,6 +163,15 @@ def check(ctx):
             initd = nv["init"].get(loc)
             name = "%s.%s" % (cls, loc[1])
             if fitd is None:
+                # add_arm installs a neutral value but fit never (unconditionally) writes the field
+                trained = any(lab in ("fit", "partial_fit") for lab, _, _ in fm.writers.get(loc, []))
+                from .common import value_dead
+                if trained and loc[1] not in derive.EXCLUDED_FIELDS and not value_dead(prog, cls, loc[1])[0]:
+                    fitfn = prog.cls(cls).resolve("fit")
+                    ctx.violate("R1.4", "fit resets %s to the neutral value that add_arm installs" % name,
+                                fitfn.node, fitfn, "add_arm installs %r, training writes the field, but fit has no "
+                                "unconditional reset of it: an arm without rows in the new data keeps its old value"
+                                % (desc[1],), construct="def %s.fit (reset of %s)" % (fitfn.cls.name, loc[1]))
                 continue
             if desc[0] == "const" and fitd[0][0] == "const":
                 same = desc[1] == fitd[0][1] and (initd is None or initd[0][1] == desc[1])
